@@ -1,6 +1,7 @@
 package disk
 
 import (
+	"crypto/sha256"
 	"fmt"
 	"math/rand"
 	"strings"
@@ -125,7 +126,12 @@ func confusable(r *rand.Rand, id string) string {
 		}
 		return sb.String()
 	}
-	switch r.Intn(16) {
+	switch r.Intn(18) {
+	case 16:
+		// what a hashing store would call the entry of id: a "simple" identifier that looks like a file stem
+		return fmt.Sprintf("%x", sha256.Sum256([]byte(id)))
+	case 17:
+		return fmt.Sprintf("%x.protobom", sha256.Sum256([]byte(id)))
 	case 12:
 		if len(id) > 1 {
 			return id[:len(id)-1] // a proper prefix
